@@ -104,7 +104,17 @@ Spec == Init /\ [][Next]_vars
 Depth == TLCGet("level") <= MaxOps
 
 -----------------------------------------------------------------------------
-Probes == {p \in SeqsUpTo(Alphabet, ProbeLen) : p = <<>> \/ (p[1] # SEP /\ p[Len(p)] # SEP)}
+\* probe paths: every sequence up to ProbeLen over Alphabet, plus the instances of the universe's patterns
+\* (wildcards replaced by sample values) and their one-symbol mutations
+RECURSIVE Inst(_, _)
+Inst(pat, v) == IF pat = <<>> THEN <<>> ELSE (IF Head(pat) = TOKEN THEN v ELSE <<Head(pat)>>) \o Inst(Tail(pat), v)
+Vals == {<<49>>, <<98>>, <<TOKEN>>, <<49, 49>>, <<45, 49>>, <<98, SEP, 101>>}
+MutChars == {98, TOKEN, SEP, 49}
+Mutants(p) == {p} \cup (IF p = <<>> THEN {} ELSE {SubSeq(p, 1, Len(p) - 1), SubSeq(p, 2, Len(p))})
+              \cup {Append(p, c) : c \in MutChars}
+              \cup UNION {{[p EXCEPT ![i] = c] : c \in MutChars} : i \in 1..Len(p)}
+InstProbes == UNION {Mutants(Inst(r.pat, v)) : r \in Universe \cup HookRules, v \in Vals}
+Probes == {p \in SeqsUpTo(Alphabet, ProbeLen) \cup InstProbes : p = <<>> \/ (p[1] # SEP /\ p[Len(p)] # SEP)}
 Verbs == {"GET", "HEAD", "POST", "DELETE"}
 
 \* what the implementation answers (RadiRouter.resolve through Ombott.to_route), from the tree lookup g
